@@ -201,7 +201,8 @@ cleanup_pthread:
 void
 qb_log_thread_pause(struct qb_log_target *t)
 {
-	if (t->threaded) {
+	/* no logging thread (not started yet, or stopped): nobody to pause */
+	if (t->threaded && logt_wthread_lock != NULL) {
 		(void)qb_thread_lock(logt_wthread_lock);
 	}
 }
@@ -209,7 +210,7 @@ qb_log_thread_pause(struct qb_log_target *t)
 void
 qb_log_thread_resume(struct qb_log_target *t)
 {
-	if (t->threaded) {
+	if (t->threaded && logt_wthread_lock != NULL) {
 		(void)qb_thread_unlock(logt_wthread_lock);
 	}
 }
@@ -221,6 +222,13 @@ qb_log_thread_log_post(struct qb_log_callsite *cs,
 	struct qb_log_record *rec;
 	size_t buf_size;
 	size_t total_size;
+
+	if (logt_wthread_lock == NULL) {
+		/* a target was switched to threaded, but there is no logging
+		 * thread (yet, or any more): write it right here */
+		qb_log_thread_log_write(cs, timestamp, buffer);
+		return;
+	}
 
 	rec = malloc(sizeof(struct qb_log_record));
 	if (rec == NULL) {
